@@ -214,6 +214,10 @@ def judge(case, r, known):
                 break
         if label == 'cyclic':
             out.append(('violation', None, 'a really cyclic document is accepted', {'case': slim(case, [oks[0]]), 'how': HOW}))
+    if not oks and case.get('kind') == 'hand' and label is None:
+        e = docs[0]['err']
+        out.append(('harness', None, f'a document of the fixed valid corpus is rejected in every order ({case["tag"]}): '
+                    f'{e["type"]}: {e["msg"][:160]}', {'case': slim(case, [0]), 'observed': e}))
     if not oks and label == 'acyclic':
         e = docs[0]['err']
         out.append(('violation', None, f'a valid (acyclic) document is rejected in every order: {e["type"]}: {e["msg"][:160]}',
